@@ -32,7 +32,7 @@ VERIF_KINDS = [
     'possible arithmetic underflow/overflow',
     'possible division by zero',
     'possible bit shift underflow/overflow',
-    'unable to prove assertion',
+    'unable to prove',
     'cannot show',
     'unreachable!() or unimplemented!() might be reachable',
     'termination checking',
